@@ -144,6 +144,31 @@ def _shard(shard):
     return count, bad
 
 
+def _char_shard(job):
+    """Every string of the character alphabet (mc/charsweep.py) written through every string method the statement
+    admits for it and read back: it must come back as its cp1252 image and nothing else may change."""
+    from .. import charsweep
+
+    loader.install_shims()
+    count, bad = 0, []
+    for s in charsweep.strings(job):
+        n = len(s)
+        im = img(s)
+        hist = [("add_char", 7), ("add_fixed_string", s, n, 0)]
+        if "ÿ" not in im:
+            hist.append(("add_fixed_string", s, n + 1, 1))
+        if "~" not in im:
+            hist.append(("add_fixed_encoded_string", s, n, 0))
+            if "ÿ" not in im:
+                hist.append(("add_fixed_encoded_string", s, n + 2, 1))
+        for tail in (("add_string", s),) + ((("add_encoded_string", s),) if "~" not in im else ()):
+            count += 1
+            what = run_history(hist + [tail])
+            if what and len(bad) < 3:
+                bad.append(({"history": hist + [tail]}, what, []))
+    return count, bad
+
+
 def _fix(op):
     return tuple(bytes(x) if isinstance(x, (bytes, bytearray)) else x for x in op)
 
@@ -157,11 +182,15 @@ def _localise(prev, hist, what, shard):
 
 def ladder_histories():
     out = []
-    for L in (8, 16, 24, 32, 64, 255, 256, 300):
+    for L in (8, 16, 24, 32, 64, 255, 256, 300, 1025, 65537):
         for s in ("x" * L, "€" * L, "a" * (L - 1) + "Ā"):
             out.append([("add_short", 253), ("add_fixed_string", s, L, 0), ("add_char", 1), ("add_string", s)])
             out.append([("add_fixed_string", s, L + 2, 1), ("add_fixed_encoded_string", s, L, 0), ("add_int", 253), ("add_encoded_string", s)])
             out.append([("add_fixed_encoded_string", s, L + 1, 1), ("add_bytes", b"\x00\xff"), ("add_fixed_string", s, L, 1)])
+        # the amount of padding climbs the same ladder: short strings in wide padded fields, values after them
+        for s in ("", "ab", "€uro"):
+            out.append([("add_char", 7), ("add_fixed_string", s, L, 1), ("add_char", 1), ("add_fixed_encoded_string", s, L + 1, 1), ("add_short", 300)])
+            out.append([("add_fixed_encoded_string", s, L + len(s), 1), ("add_three", 64009), ("add_fixed_string", s, L + len(s), 1), ("add_string", s)])
     return out
 
 
@@ -176,6 +205,12 @@ def run(tier, seed):
         what = run_history(hist)
         if what:
             bads.append(({"history": hist}, what, []))
+    from .. import charsweep
+
+    res_chars = par.pmap(_char_shard, charsweep.jobs(tier))
+    char_n = sum(r[0] for r in res_chars)
+    count += char_n
+    bads += [b for r in res_chars for b in r[1]]
     violations = []
     for case, what, alts in bads:
         hist = case["history"]
@@ -187,13 +222,15 @@ def run(tier, seed):
         "traces_validated_against_impl": count,
         "evaluations": count,
         "distinct_nontrivial": count - 1,
+        "character_sweep_histories": char_n,
+        "character_sweep_strings": charsweep.total(),
         "menu_ops": len(mid),
         "trailing_ops": len(last),
         "max_writes": depth,
         "exhaustive": True,
         "rule": "every sequence of up to max_writes typed writes from the menu (raw bytes, EO ints at 0 / each digit boundary / "
         "limit-1, fixed/padded/encoded strings over 11 strings incl. unencodable characters at every legal width, a trailing "
-        "string only in last position), each followed by the matching get_* sequence on EoReader(writer output); a state is a "
+        "string only in last position; plus the character sweep: every Unicode code point U+0000..U+10FFFF as a one-character string and every (windows-1252 character, combining mark) pair through every string method the statement admits for it), each followed by the matching get_* sequence on EoReader(writer output); a state is a "
         "distinct write history (its output bytes), transitions are its writes + reads; non-trivial = all but the empty history",
         "samples": [{"writes": [["add_short", 253], ["add_fixed_encoded_string", "€", 3, 1], ["add_string", "Ā"]]}],
     }
